@@ -27,7 +27,7 @@ def run(name):
         shutil.rmtree(wt, ignore_errors=True)
 
 bad = 0
-with ThreadPoolExecutor(6) as ex:
+with ThreadPoolExecutor(14) as ex:
     for name, res in ex.map(run, names):
         if res:
             bad += 1
